@@ -33,8 +33,9 @@ import time
 def _assert_repo():
     import puan
     p = os.path.realpath(puan.__file__)
-    if not p.startswith("/repo/"):
-        print(f"HARNESS-ERROR puan imported from {p}, not /repo")
+    want = os.path.realpath(os.environ.get("PSS_REPO", "/repo")) + "/"
+    if not p.startswith(want):
+        print(f"HARNESS-ERROR puan imported from {p}, not {want}")
         sys.exit(2)
 
 
